@@ -74,7 +74,7 @@ def pipeline_table(d):
             mism.append((runs[j["run"] - 1]["sc"], j["diff"]))
     for sc, diff in mism[:5]:
         print("INFO: HPipeline: real iteration differs from the model in %s for scenario %s" % (diff, json.dumps(sc, sort_keys=True)))
-    return {"scenarios": len(scs), "model_states": g.distinct, "mismatches": len(mism),
+    return {"scenarios": len(scs), "model_states": g.distinct, "mismatches": len(mism), "mism": mism[:50],
             "design_properties_checked": ["PassIsFinal", "PassNeverFaulty", "FailIsFaulty", "TextIsBin", "KeepAll", "FailedReportsNothing", "Terminates"]}
 
 
@@ -158,6 +158,8 @@ def run(tier, seed, selftest=False, replay=None):
                                 cl, s["id"], key[0], key[1], key[2], [(o["kind"], o["rp"], o["rf"]) for o in s["scenario"]["outs"]],
                                 s["scenario"]["crashes"], " exc=" + s["exc"] if s["exc"] else ""))
     pl = pipeline_table(d) if not replay else None
+    if pl:
+        pl.pop("mism", None)
     T("pipeline table")
     rc = verdict.finish()
     write_evidence(PID, tier, seed, "model_checking", {
